@@ -16,10 +16,14 @@ RULE = ('(1) step-wise consumption of 2-4 simultaneously open REAL traversal ite
         'and without the source, both graph classes; ontology.terms / term_ids) under every interleaving of two iterators with <= 4 '
         'steps each and random interleavings of up to four, with complete queries sprinkled in between: the sequence each iterator '
         'yields must equal its standalone sequence, and the standalone multiset must equal the Lean model\'s; (2) 2-4 reader threads '
-        'each draining its own iterator on the shared graph (switch interval 1e-6 s), 200 rounds; (3) ONE factory instance of each '
+        'each draining its own iterator on the shared graph (switch interval 1e-6 s), 200 rounds, and 4 threads released by a barrier '
+        'on a graph nobody has queried yet (fresh graph every round, answers compared with a sequentially queried twin), and a '
+        'deterministic single-pre-emption scan: the first query on a fresh graph is stopped after exactly k executed lines of library '
+        'code for every k, a second thread runs a query to completion, the first resumes; (3) ONE factory instance of each '
         'class building a sequence of different graphs (pairs whose boundary edges share the subject at different node indices, '
         'random lists) must give what a fresh factory gives and what the model gives; (4) every order of loading <= 3 different '
-        'documents (two ontologies, an HPOA file) through the default module-level factories gives the dumps of a fresh interpreter. '
+        'documents (ontologies, an HPOA file read by loaders with three different cohort-size / salvage settings) through the default '
+        'module-level factories gives the dumps of a fresh interpreter. '
         'Non-trivial: >= 2 iterators open at once, or a shared factory / process is reused; distinct by the whole scenario.')
 
 THEOREM = 'Hpv.Props.C12.*'
@@ -152,6 +156,112 @@ def thread_scenarios(ctx, rng, factory, edges, rounds):
         sys.setswitchinterval(old)
 
 
+def fresh_graph_threads(ctx, rng, factory, rounds, n_nodes):
+    """every round builds a FRESH graph (nothing has queried it yet) and releases 4 threads on it at once; each asks about nodes
+    that sit late in the node array, so anything the graph computes lazily on first use is computed under contention"""
+    edges = gl.random_dag(rng, n=n_nodes)[0]
+    nodes = gl.nodes_of(edges)
+    twin = gl.build_impl(factory, edges)
+    _, TermId, _, _ = gl._hp()
+    probes = [rng.choice(nodes[-max(3, len(nodes) // 10):]) for _ in range(4)]
+    specs = [(rng.choice(['ancestors', 'descendants', 'parents', 'children']), p, rng.random() < 0.5) for p in probes]
+    want = [[True, sorted(standalone(twin, s))] for s in specs]
+    old = sys.getswitchinterval()
+    sys.setswitchinterval(1e-6)
+    try:
+        for r in range(rounds):
+            g = gl.build_impl(factory, edges)
+            res = [None] * len(specs)
+            barrier = threading.Barrier(len(specs))
+
+            def work(i):
+                try:
+                    barrier.wait()
+                    tid = TermId.from_curie(specs[i][1])
+                    res[i] = [tid in g, sorted(t.value for t in open_iter(g, specs[i]))]
+                except Exception as e:  # noqa
+                    res[i] = f'raises {type(e).__name__}: {e}'
+            ths = [threading.Thread(target=work, args=(i,)) for i in range(len(specs))]
+            for t in ths:
+                t.start()
+            for t in ths:
+                t.join()
+            ctx.case(['fresh-threads', factory, len(nodes), specs, r], True, f'threads.fresh-graph.{factory}',
+                     sample={'factory': factory, 'nodes': len(nodes), 'first_queries': specs} if r == 0 else None)
+            if res != want:
+                ctx.violation(f'{factory}:threads-on-fresh-graph', {
+                    'case': {'kind': 'fresh-threads', 'factory': factory, 'edges': edges, 'specs': [list(s) for s in specs]},
+                    'impl_threads': res, 'impl_sequential_twin': want, 'theorem': 'Hpv.Props.C12 (partial: pre-emption)'})
+                return
+    finally:
+        sys.setswitchinterval(old)
+
+
+def preemption_scan(ctx, rng, factory, edges, cap):
+    """systematic single pre-emption: thread A starts the FIRST query on a fresh graph and is stopped after exactly k executed
+    lines of library code (k = 1, 2, ... until A finishes without reaching k); thread B then runs its query to completion on the
+    same graph; A resumes.  Both answers must equal those of a sequentially queried twin.  Deterministic - no timing involved."""
+    src_root = os.path.join(common.REPO, 'src')
+    nodes = gl.nodes_of(edges)
+    twin = gl.build_impl(factory, edges)
+    _, TermId, _, _ = gl._hp()
+    specA = (rng.choice(['ancestors', 'descendants']), rng.choice(nodes), True)
+    specB = (rng.choice(['ancestors', 'descendants', 'parents', 'children']), nodes[-1], False)
+    want = [sorted(standalone(twin, specA)), [True, sorted(standalone(twin, specB))]]
+    k = 0
+    while k < cap:
+        k += 1
+        g = gl.build_impl(factory, edges)
+        res = [None, None]
+        go_b, b_done = threading.Event(), threading.Event()
+        state = {'lines': 0, 'reached': False}
+
+        def tracer(frame, event, arg):
+            if not frame.f_code.co_filename.startswith(src_root):
+                return None
+            if event == 'line':
+                state['lines'] += 1
+                if state['lines'] == k:
+                    state['reached'] = True
+                    go_b.set()
+                    b_done.wait(10)
+            return tracer
+
+        def work_a():
+            sys.settrace(tracer)
+            try:
+                res[0] = sorted(t.value for t in open_iter(g, specA))
+            except Exception as e:  # noqa
+                res[0] = f'raises {type(e).__name__}: {e}'
+            finally:
+                sys.settrace(None)
+                go_b.set()
+
+        def work_b():
+            go_b.wait(10)
+            try:
+                res[1] = [TermId.from_curie(specB[1]) in g, sorted(t.value for t in open_iter(g, specB))]
+            except Exception as e:  # noqa
+                res[1] = f'raises {type(e).__name__}: {e}'
+            finally:
+                b_done.set()
+        ta, tb = threading.Thread(target=work_a), threading.Thread(target=work_b)
+        tb.start()
+        ta.start()
+        ta.join()
+        tb.join()
+        ctx.case(['preempt', factory, edges, specA, specB, k], True, f'threads.single-preemption.{factory}',
+                 sample={'factory': factory, 'A': specA, 'B': specB, 'A_stopped_after_lines': k} if k in (1, 5) else None)
+        if res != want:
+            ctx.violation(f'{factory}:preempted-first-query', {
+                'case': {'kind': 'preempt', 'factory': factory, 'edges': edges, 'A': list(specA), 'B': list(specB), 'k': k},
+                'impl': res, 'impl_sequential_twin': want, 'theorem': 'Hpv.Props.C12 (partial: pre-emption)'})
+            return
+        if not state['reached']:
+            break
+    ctx.count('preemption_points', k)
+
+
 def graph_dump(g):
     return {'nodes': [t.value for t in g], 'root': g.root.value,
             'parents': [[n.value, sorted(p.value for p in g.get_parents(n))] for n in g],
@@ -214,7 +324,8 @@ def load_and_dump(job):
     """job = [kind, path]; kind in minimal|full|hpoa. Uses the DEFAULT (module-level, shared) factories."""
     import hpotk
     from props import c05, c08
-    kind, path = job
+    kind, path = job[0], job[1]
+    opts = job[2] if len(job) > 2 else {}
     with warnings.catch_warnings():
         warnings.simplefilter('ignore')
         if kind == 'minimal':
@@ -222,7 +333,7 @@ def load_and_dump(job):
         if kind == 'full':
             return c05.dump_impl(hpotk.load_ontology(path), True)
         from hpotk.annotations.load.hpoa import SimpleHpoaDiseaseLoader
-        return c08.dump_impl(SimpleHpoaDiseaseLoader(c08.toy_hpo()).load(path))
+        return c08.dump_impl(SimpleHpoaDiseaseLoader(c08.toy_hpo(), **opts).load(path))
 
 
 def load_orders(ctx, rng, thorough):
@@ -238,10 +349,17 @@ def load_orders(ctx, rng, thorough):
                 json.dump({'graphs': [doc]}, fh, ensure_ascii=False)
             jobs.append(['minimal' if k != 1 else 'full', p])
         head, lines = c08.gen_file(rng)
+        # lines whose parsed ratio depends on the loader's configuration: a percentage, a frequency term, a negated 0/n
+        for k, (neg, freq) in enumerate([('', '12%'), ('', 'HP:0040283'), ('NOT', '0/5'), ('', '33.3%'), ('NOT', 'HP:0040281')]):
+            lines.append('\t'.join(['OMIM:999001', 'CONFIG SENSITIVE', neg, f'HP:000{k + 1:04d}', 'PMID:1', 'PCS', '', freq, '', '', 'P',
+                                    'HPO:probinson[2020-01-01]']))
         p = os.path.join(world, 'a.hpoa')
         with open(p, 'w', encoding='utf-8') as fh:
             fh.write(''.join(l + '\n' for l in head + c08.consistent_names(lines)))
         jobs.append(['hpoa', p])
+        # the same annotation file through loaders that are configured differently (cohort size, salvaging of negated frequencies)
+        jobs.append(['hpoa', p, {'cohort_size': 20, 'salvage_negated_frequencies': True}])
+        jobs.append(['hpoa', p, {'cohort_size': 7}])
         jobs.append(['full', jobs[0][1]])
         # reference: each job alone in a FRESH interpreter
         ref = {}
@@ -249,19 +367,21 @@ def load_orders(ctx, rng, thorough):
             out = subprocess.run([sys.executable, '-c', LOADER_SNIPPET, os.path.join(common.REPO, 'src'), os.path.dirname(os.path.dirname(os.path.abspath(__file__))),
                                   json.dumps(job)], capture_output=True, text=True)
             if out.returncode != 0:
-                ref[tuple(job)] = f'raises: {out.stderr[-300:]}'
+                ref[json.dumps(job)] = f'raises: {out.stderr[-300:]}'
             else:
-                ref[tuple(job)] = json.loads(out.stdout)[0]
-        orders = list(itertools.permutations(range(len(jobs)), 3)) if thorough else rng.sample(list(itertools.permutations(range(len(jobs)), 3)), 14)
+                ref[json.dumps(job)] = json.loads(out.stdout)[0]
+        perms = list(itertools.permutations(range(len(jobs)), 3))
+        hp = [i for i, j in enumerate(jobs) if j[0] == 'hpoa']
+        orders = perms if thorough else rng.sample(perms, 14) + list(itertools.permutations(hp, 3))
         for order in orders:
-            ctx.case(['load-order', [jobs[i][0] for i in order], order], True, 'load-orders(default factories)',
+            ctx.case(['load-order', [jobs[i][0] + json.dumps(jobs[i][2:]) for i in order], order], True, 'load-orders(default factories)',
                      sample={'order': [jobs[i] for i in order]})
             for i in order:
                 try:
                     got = json.loads(json.dumps(load_and_dump(jobs[i])))
                 except Exception as e:  # noqa
                     got = f'raises {type(e).__name__}: {e}'
-                want = ref[tuple(jobs[i])]
+                want = ref[json.dumps(jobs[i])]
                 if isinstance(want, str) and want.startswith('raises') and isinstance(got, str):
                     continue
                 if got != want:
@@ -287,6 +407,11 @@ def run(ctx):
         iterator_scenarios(ctx, rng, rng.choice(gl.FACTORIES), edges, False)
     for f in gl.FACTORIES:
         thread_scenarios(ctx, rng, f, fixed[0], 200 if thorough else 60)
+    for f in gl.FACTORIES:
+        fresh_graph_threads(ctx, rng, f, 60 if thorough else 15, 300 if f == 'indexed' else 60)
+    for f in gl.FACTORIES:
+        for _ in range(4 if thorough else 1):
+            preemption_scan(ctx, rng, f, gl.random_dag(rng, n=rng.randrange(5, 9))[0], 600 if thorough else 250)
     factory_reuse(ctx, rng, thorough)
     load_orders(ctx, rng, thorough)
 
